@@ -57,6 +57,7 @@ type State struct {
 	VerifiedOK                                   []*Envelope // envelopes whose Verify returned a content
 	Certs                                        map[string]*x509.Certificate
 	NowCalls                                     int
+	Issued                                       []*Envelope // envelopes produced by Sign (or issued by a scripted plugin): parsing their bytes gives their content back
 }
 
 var Env State
@@ -130,7 +131,7 @@ func (e *Envelope) Sign(req *signature.SignRequest) ([]byte, error) {
 	r := *req
 	Env.Req = &r
 	e.Signed = true
-	e.Raw = Env.SignedRaw
+	e.Raw = append(append([]byte{}, Env.SignedRaw...), byte('0'+len(Env.Issued)))
 	e.content = &signature.EnvelopeContent{
 		Payload: req.Payload,
 		SignerInfo: signature.SignerInfo{
@@ -146,7 +147,14 @@ func (e *Envelope) Sign(req *signature.SignRequest) ([]byte, error) {
 			Signature:          sig,
 		},
 	}
+	Env.Issued = append(Env.Issued, e)
 	return e.Raw, nil
+}
+
+// Issue registers an envelope made outside Sign (a scripted envelope-generator plugin): parsing raw under
+// media type mt yields content.
+func Issue(mt string, raw []byte, content *signature.EnvelopeContent) {
+	Env.Issued = append(Env.Issued, &Envelope{Media: mt, Raw: raw, content: content})
 }
 
 func (e *Envelope) Verify() (*signature.EnvelopeContent, error) {
@@ -181,6 +189,11 @@ func parse(mt string, b []byte) (signature.Envelope, error) {
 	Env.ParsedMedia = append(Env.ParsedMedia, mt)
 	if Env.ParseErr {
 		return nil, &signature.InvalidSignatureError{Msg: "cannot parse"}
+	}
+	for _, e := range Env.Issued {
+		if e.Media == mt && string(e.Raw) == string(b) {
+			return &Envelope{Media: mt, Raw: b, content: e.content}, nil
+		}
 	}
 	return &Envelope{Media: mt, Raw: b, content: Env.Content}, nil
 }
